@@ -137,7 +137,7 @@ def items(events, case="lower", trailing_dangling=False):
             cmd("cpp_attr", args)
         elif k in ("cpp_member", "cpp_constructor"):
             cls = class_name_at(events, i)
-            mname = nm if k == "cpp_member" else "CTOR"
+            mname = nm if k == "cpp_member" else ev.get("ctor", "CTOR")
             cmd(k, [mname, cls] + list(ev.get("types", [])))
             cmd(ev.get("impl", "function"), ['"${%s}"' % mname, "self"] + list(ev.get("params", [])))
             st.append((k, i))
